@@ -658,3 +658,268 @@ Proof.
     destruct (consume LOOPFUEL cfg r w2 tt h fin) as [r3 w3] end.
   exact K3.
 Qed.
+
+(* ================================================================== requests with positional fields (handshake, configuration, read card) *)
+
+Lemma canon_ctx_indep ls e t tag v c1 c2 g1 g2 :
+  canon ls e t tag v c1 = Some g1 -> canon ls e t tag v c2 = Some g2 -> g1 = g2.
+Proof.
+  intros H1 H2. destruct (canon_exact _ _ _ _ _ _ _ H1) as [E1 _]. destruct (canon_exact _ _ _ _ _ _ _ H2) as [E2 _].
+  rewrite E1 in E2. injection E2 as <-. reflexivity.
+Qed.
+
+(* from "inside the class whatever follows" (what the family lemmas give) to one encoding that serves every context *)
+Lemma every_ctx ls e t tag v : (forall ctx, exists g, canon ls e t tag v ctx = Some g) ->
+  exists g, forall ctx, canon ls e t tag v ctx = Some g.
+Proof.
+  intros H. destruct (H None) as [g0 H0]. exists g0. intros ctx. destruct (H ctx) as [g Hg].
+  rewrite Hg. f_equal. exact (canon_ctx_indep _ _ _ _ _ _ _ _ _ Hg H0).
+Qed.
+
+Lemma canon_fixed_len_pos k e p v ctx g : canon (LFixed k) e (TPrim p) None v ctx = Some g -> blen g = k.
+Proof.
+  cbn [canon]. intros H. destruct (canon_prim_shape _ _ _ _ _ _ _ H) as [pl [_ Hf]].
+  unfold framed_enc in Hf. cbn [len_ser] in Hf. destruct (blen pl <=? k) eqn:E; [|discriminate].
+  cbn [bind app] in Hf. injection Hf as <-. rewrite !blen_app, blen_zeros. lia.
+Qed.
+
+Lemma canon_int_nolen_len_pos (big : bool) w n ctx g :
+  canon LEmpty (if big then EBigEndian else EDefault) (TPrim (PInt w)) None (VInt n) ctx = Some g -> blen g = w.
+Proof.
+  cbn [canon]. intros H. destruct (canon_prim_shape _ _ _ _ _ _ _ H) as [pl [He Hf]].
+  unfold framed_enc in Hf. cbn [len_ser bind app] in Hf. injection Hf as <-.
+  destruct big; cbn [prim_enc] in He; injection He as <-; [apply (int_enc_len true)|apply (int_enc_len false)].
+Qed.
+
+(* a positional prefix, then tagged fields *)
+Inductive pos_ok : list field -> list value -> N -> Prop :=
+| po_nil : pos_ok [] [] 0
+| po_cons nm l e t x g fs vs n m :
+    (forall ctx, canon l e t None x ctx = Some g) -> blen g <= m ->
+    pos_ok fs vs n -> pos_ok (Fld nm None l e t :: fs) (x :: vs) (m + n).
+
+Lemma canon_fields_pos_tagged ps pvs n1 : pos_ok ps pvs n1 -> forall ts tvs n2, tagged_ok ts tvs n2 ->
+  exists pl, canon_fields (Some []) true (ps ++ ts) (pvs ++ tvs) false = Some pl /\ blen pl <= n1 + n2.
+Proof.
+  induction 1 as [|nm l e t x g fs vs n m Hc Hm _ IH]; intros ts tvs n2 Ht.
+  - cbn [app]. destruct (canon_fields_tagged_ok _ _ _ Ht false) as [pl [E L]]. exists pl. split; [exact E|lia].
+  - destruct (IH ts tvs n2 Ht) as [rest [Hr Hl]]. cbn [app canon_fields]. rewrite Hr, Hc.
+    exists (g ++ rest). split; [reflexivity|]. rewrite blen_app. lia.
+Qed.
+
+Lemma class_cmd_pos_tagged c ps pvs n1 ts tvs n2 : c_fields c = ps ++ ts -> pos_ok ps pvs n1 -> tagged_ok ts tvs n2 ->
+  nodup_b (tags_of (c_fields c)) = true -> n1 + n2 <= 65535 -> cf c < 65536 ->
+  exists b, canon_cmd c (VRec (pvs ++ tvs)) = Some b.
+Proof.
+  intros Hc Hp Ht Hnd Hn Hcf. unfold canon_cmd, canon_struct. rewrite canon_struct_unfold. cbn [struct_tail tagged_allowed].
+  rewrite Hc. destruct (canon_fields_pos_tagged _ _ _ Hp _ _ _ Ht) as [pl [-> Hl]]. rewrite <- Hc, Hnd.
+  destruct (blen pl <=? 65535) eqn:E; [|lia]. destruct (cf c <? 65536) eqn:E2; [|lia]. cbn [andb].
+  unfold framed_enc. cbn [len_ser]. destruct (blen pl <? 255); cbn [bind]; eexists; reflexivity.
+Qed.
+
+(* the positional fields the client fills in *)
+Lemma pos_bcd k n : n < 100 ^ k -> n < 2 ^ 64 ->
+  exists g, (forall ctx, canon (LFixed k) EBcd (TPrim (PInt 8)) None (VInt n) ctx = Some g) /\ blen g <= k.
+Proof.
+  intros Hk H64. destruct (every_ctx (LFixed k) EBcd (TPrim (PInt 8)) None (VInt n)) as [g Hg].
+  { intros ctx. apply (class_bcd_fixed k 8 None n ctx eq_refl Hk H64 H64). }
+  exists g. split; [exact Hg|]. rewrite (canon_fixed_len_pos _ _ _ _ _ _ (Hg None)). lia.
+Qed.
+
+Lemma pos_bcd_some k n : n < 100 ^ k -> n < 2 ^ 64 ->
+  exists g, (forall ctx, canon (LFixed k) EBcd (TOpt (TPrim (PInt 8))) None (VSome (VInt n)) ctx = Some g) /\ blen g <= k.
+Proof.
+  intros Hk H64. destruct (pos_bcd k n Hk H64) as [g [Hg Hl]]. exists g. split; [|exact Hl].
+  intros ctx. cbn [canon]. specialize (Hg ctx). cbn [canon] in Hg. rewrite Hg. rewrite Bool.andb_false_r. reflexivity.
+Qed.
+
+Lemma pos_byte n : n < 256 ->
+  exists g, (forall ctx, canon LEmpty EDefault (TPrim (PInt 1)) None (VInt n) ctx = Some g) /\ blen g <= 1.
+Proof.
+  intros Hn. destruct (every_ctx LEmpty EDefault (TPrim (PInt 1)) None (VInt n)) as [g Hg].
+  { intros ctx. apply (class_int_nolen false 1 None n ctx eq_refl). cbn. lia. }
+  exists g. split; [exact Hg|]. rewrite (canon_int_nolen_len_pos false _ _ _ _ (Hg None)). lia.
+Qed.
+
+(* ---- Registration: password, configuration byte, currency ---- *)
+
+Definition registration_value (pw cur : N) : value := VRec [VInt pw; VInt CONFIG_BYTE; VSome (VInt cur); VNone].
+
+Lemma registration_in_class pw cur : pw < 10 ^ 6 -> cur < 10000 ->
+  exists b, canon_cmd (cmd_of "zvt::packets::Registration") (registration_value pw cur) = Some b.
+Proof.
+  intros Hpw Hcur.
+  destruct (pos_bcd 3 pw) as [g1 [H1 L1]]; [change (100 ^ 3) with (10 ^ 6); exact Hpw|change (10 ^ 6) with 1000000 in Hpw; change (2 ^ 64) with 18446744073709551616; lia|].
+  destruct (pos_byte CONFIG_BYTE) as [g2 [H2 L2]]; [unfold CONFIG_BYTE; lia|].
+  destruct (pos_bcd_some 2 cur) as [g3 [H3 L3]]; [change (100 ^ 2) with 10000; exact Hcur|change (2 ^ 64) with 18446744073709551616; lia|].
+  apply (class_cmd_pos_tagged (cmd_of "zvt::packets::Registration")
+           [Fld "password" None (LFixed 3) EBcd (TPrim (PInt 8)); Fld "config_byte" None LEmpty EDefault (TPrim (PInt 1));
+            Fld "currency" None (LFixed 2) EBcd (TOpt (TPrim (PInt 8)))]
+           [VInt pw; VInt CONFIG_BYTE; VSome (VInt cur)] (3 + (1 + (2 + 0)))
+           [Fld "tlv" (Some 6) LTlv EDefault (TOpt (TStruct S_zvt_packets_tlv_Registration))] [VNone] (0 + 0)).
+  - reflexivity.
+  - eapply po_cons; [exact H1|exact L1|]. eapply po_cons; [exact H2|exact L2|]. eapply po_cons; [exact H3|exact L3|apply po_nil].
+  - eapply to_cons; [reflexivity|apply absent|unfold blen; cbn [length]; lia|apply to_nil].
+  - reflexivity.
+  - lia.
+  - reflexivity.
+Qed.
+
+(* the registration command of a configuration is read back as exactly the configured password and currency and the
+   configuration byte 0xDE — whatever follows *)
+Theorem registration_on_the_wire cfg : c_password cfg < 10 ^ 6 -> c_currency cfg < 10000 ->
+  registration_cmd cfg <> [] /\
+  forall r, dec_cmd FUEL (cmd_of "zvt::packets::Registration") (registration_cmd cfg ++ r) =
+            Ok (registration_value (c_password cfg) (c_currency cfg), r).
+Proof.
+  intros Hpw Hcur. destruct (registration_in_class _ _ Hpw Hcur) as [b Hb].
+  destruct (canon_cmd_roundtrip _ _ _ Hb) as [Henc Hdec].
+  assert (Hreq : registration_cmd cfg = b).
+  { unfold registration_cmd, mk_cmd, run_enc.
+    change (find_struct "zvt::packets::Registration") with (Some (Some (6, 0), S_zvt_packets_Registration)).
+    change (snd (layout_of "zvt::packets::Registration")) with S_zvt_packets_Registration.
+    change (build_rec S_zvt_packets_Registration _ []) with [VInt (c_password cfg); VInt CONFIG_BYTE; VSome (VInt (c_currency cfg)); VNone].
+    cbv beta iota.
+    change {| c_class := 6; c_instr := 0; c_fields := S_zvt_packets_Registration |} with (cmd_of "zvt::packets::Registration").
+    unfold registration_value in Henc. rewrite Henc. reflexivity. }
+  rewrite Hreq. split.
+  - intros ->. unfold enc_cmd in Henc. destruct (enc_struct _ _) as [p| | |]; try discriminate. cbn [bind] in Henc.
+    unfold framed_enc in Henc. cbn [len_ser] in Henc. destruct (blen p <? 255); cbn [bind] in Henc; discriminate.
+  - intros r. apply Hdec. vm_compute. lia.
+Qed.
+
+(* ---- EndOfDay / Initialization: the configured password ---- *)
+
+Lemma password_only_in_class name (c i : N) pw :
+  find_struct name = Some (Some (c, i), [Fld "password" None (LFixed 3) EBcd (TPrim (PInt 8))]) -> c * 256 + i < 65536 ->
+  pw < 10 ^ 6 -> exists b, canon_cmd (cmd_of name) (VRec [VInt pw]) = Some b.
+Proof.
+  intros Hf Hc Hpw.
+  destruct (pos_bcd 3 pw) as [g1 [H1 L1]]; [change (100 ^ 3) with (10 ^ 6); exact Hpw|change (10 ^ 6) with 1000000 in Hpw; change (2 ^ 64) with 18446744073709551616; lia|].
+  unfold cmd_of. rewrite Hf.
+  apply (class_cmd_pos_tagged _ [Fld "password" None (LFixed 3) EBcd (TPrim (PInt 8))] [VInt pw] (3 + 0) [] [] 0).
+  - reflexivity.
+  - eapply po_cons; [exact H1|exact L1|apply po_nil].
+  - apply to_nil.
+  - reflexivity.
+  - lia.
+  - exact Hc.
+Qed.
+
+Theorem end_of_day_request_on_the_wire cfg : c_password cfg < 10 ^ 6 ->
+  let req := mk_cmd "zvt::packets::EndOfDay" [VInt (c_password cfg)] [] in
+  req <> [] /\ forall r, dec_cmd FUEL (cmd_of "zvt::packets::EndOfDay") (req ++ r) = Ok (VRec [VInt (c_password cfg)], r).
+Proof.
+  intros Hpw req. destruct (password_only_in_class "zvt::packets::EndOfDay" 6 80 (c_password cfg) eq_refl eq_refl Hpw) as [b Hb].
+  destruct (canon_cmd_roundtrip _ _ _ Hb) as [Henc Hdec].
+  assert (Hreq : req = b).
+  { unfold req, mk_cmd, run_enc.
+    change (find_struct "zvt::packets::EndOfDay") with (Some (Some (6, 80), S_zvt_packets_EndOfDay)).
+    change (snd (layout_of "zvt::packets::EndOfDay")) with S_zvt_packets_EndOfDay.
+    change (build_rec S_zvt_packets_EndOfDay _ []) with [VInt (c_password cfg)].
+    cbv beta iota.
+    change {| c_class := 6; c_instr := 80; c_fields := S_zvt_packets_EndOfDay |} with (cmd_of "zvt::packets::EndOfDay").
+    rewrite Henc. reflexivity. }
+  rewrite Hreq. split.
+  - intros ->. unfold enc_cmd in Henc. destruct (enc_struct _ _) as [p| | |]; try discriminate. cbn [bind] in Henc.
+    unfold framed_enc in Henc. cbn [len_ser] in Henc. destruct (blen p <? 255); cbn [bind] in Henc; discriminate.
+  - intros r. apply Hdec. vm_compute. lia.
+Qed.
+
+Theorem initialization_request_on_the_wire cfg : c_password cfg < 10 ^ 6 ->
+  let req := mk_cmd "zvt::packets::Initialization" [VInt (c_password cfg)] [] in
+  req <> [] /\ forall r, dec_cmd FUEL (cmd_of "zvt::packets::Initialization") (req ++ r) = Ok (VRec [VInt (c_password cfg)], r).
+Proof.
+  intros Hpw req. destruct (password_only_in_class "zvt::packets::Initialization" 6 147 (c_password cfg) eq_refl eq_refl Hpw) as [b Hb].
+  destruct (canon_cmd_roundtrip _ _ _ Hb) as [Henc Hdec].
+  assert (Hreq : req = b).
+  { unfold req, mk_cmd, run_enc.
+    change (find_struct "zvt::packets::Initialization") with (Some (Some (6, 147), S_zvt_packets_Initialization)).
+    change (snd (layout_of "zvt::packets::Initialization")) with S_zvt_packets_Initialization.
+    change (build_rec S_zvt_packets_Initialization _ []) with [VInt (c_password cfg)].
+    cbv beta iota.
+    change {| c_class := 6; c_instr := 147; c_fields := S_zvt_packets_Initialization |} with (cmd_of "zvt::packets::Initialization").
+    rewrite Henc. reflexivity. }
+  rewrite Hreq. split.
+  - intros ->. unfold enc_cmd in Henc. destruct (enc_struct _ _) as [p| | |]; try discriminate. cbn [bind] in Henc.
+    unfold framed_enc in Henc. cbn [len_ser] in Henc. destruct (blen p <? 255); cbn [bind] in Henc; discriminate.
+  - intros r. apply Hdec. vm_compute. lia.
+Qed.
+
+(* ---- ReadCard: the configured timeout, card type 0x10, dialog control 2, reading control 0xD0 / card type 7 ---- *)
+
+Lemma fld_tlv_byte tn n : tag_repr_b tn = true -> n < 256 ->
+  exists g, canon LTlv EDefault (TOpt (TPrim (PInt 1))) (Some tn) (VSome (VInt n)) None = Some g /\ blen g <= 6.
+Proof.
+  intros Ht Hn. destruct (class_int false LTlv 1 (Some tn) n None eq_refl eq_refl Ht) as [g Hg]; [cbn; lia|].
+  destruct (canon_tlv_prim_len _ _ _ _ _ _ Hg) as [pl [He Hb]]. cbn [prim_enc] in He. injection He as <-.
+  change (blen [n mod 256]) with 1 in Hb. exists g. split; [apply some_of; [exact Hg|lia]|lia].
+Qed.
+
+Definition read_card_tlv : value := VSome (VRec [VSome (VInt 208); VSome (VInt 7)]).
+Definition read_card_value (t : N) : value := VRec [VInt t; VSome (VInt 16); VSome (VInt 2); read_card_tlv].
+
+Lemma read_card_in_class t : t < 256 -> exists b, canon_cmd (cmd_of "zvt::packets::ReadCard") (read_card_value t) = Some b.
+Proof.
+  intros Ht.
+  destruct (pos_byte t Ht) as [g0 [H0 L0]].
+  destruct (fld_byte 25 16 eq_refl) as [g1 [H1 L1]]; [lia|].
+  destruct (fld_byte 252 2 eq_refl) as [g2 [H2 L2]]; [lia|].
+  destruct (fld_tlv_byte 7957 208 eq_refl) as [a1 [A1 B1]]; [lia|].
+  destruct (fld_tlv_byte 8032 7 eq_refl) as [a2 [A2 B2]]; [lia|].
+  assert (Hin : tagged_ok S_zvt_packets_tlv_ReadCard [VSome (VInt 208); VSome (VInt 7)] (6 + (6 + 0))).
+  { unfold S_zvt_packets_tlv_ReadCard. eapply to_cons; [reflexivity|exact A1|exact B1|]. eapply to_cons; [reflexivity|exact A2|exact B2|apply to_nil]. }
+  destruct (class_tlv_struct _ _ _ 6 None Hin eq_refl) as [g3 [H3 L3]]; [lia|reflexivity|].
+  assert (H3' : canon LTlv EDefault (TOpt (TStruct S_zvt_packets_tlv_ReadCard)) (Some 6) read_card_tlv None = Some g3)
+    by (apply some_of; [exact H3|lia]).
+  apply (class_cmd_pos_tagged (cmd_of "zvt::packets::ReadCard")
+           [Fld "timeout_sec" None LEmpty EDefault (TPrim (PInt 1))] [VInt t] (1 + 0)
+           [Fld "card_type" (Some 25) LEmpty EDefault (TOpt (TPrim (PInt 1))); Fld "dialog_control" (Some 252) LEmpty EDefault (TOpt (TPrim (PInt 1)));
+            Fld "tlv" (Some 6) LTlv EDefault (TOpt (TStruct S_zvt_packets_tlv_ReadCard))]
+           [VSome (VInt 16); VSome (VInt 2); read_card_tlv] (3 + (3 + ((6 + (6 + 0) + 5) + 0)))).
+  - reflexivity.
+  - eapply po_cons; [exact H0|exact L0|apply po_nil].
+  - eapply to_cons; [reflexivity|exact H1|exact L1|]. eapply to_cons; [reflexivity|exact H2|exact L2|].
+    eapply to_cons; [reflexivity|exact H3'|lia|apply to_nil].
+  - reflexivity.
+  - lia.
+  - reflexivity.
+Qed.
+
+Theorem read_card_request_on_the_wire t : t < 256 ->
+  let req := mk_cmd "zvt::packets::ReadCard" [VInt t]
+               [(25, VSome (VInt 16)); (252, VSome (VInt 2));
+                (6, VSome (VRec (build_rec (snd (layout_of "zvt::packets::tlv::ReadCard")) [] [(7957, VSome (VInt 208)); (8032, VSome (VInt 7))])))] in
+  req <> [] /\ forall r, dec_cmd FUEL (cmd_of "zvt::packets::ReadCard") (req ++ r) = Ok (read_card_value t, r).
+Proof.
+  intros Ht req. destruct (read_card_in_class t Ht) as [b Hb].
+  destruct (canon_cmd_roundtrip _ _ _ Hb) as [Henc Hdec].
+  assert (Hreq : req = b).
+  { unfold req, mk_cmd, run_enc.
+    change (find_struct "zvt::packets::ReadCard") with (Some (Some (6, 192), S_zvt_packets_ReadCard)).
+    change (snd (layout_of "zvt::packets::ReadCard")) with S_zvt_packets_ReadCard.
+    change (snd (layout_of "zvt::packets::tlv::ReadCard")) with S_zvt_packets_tlv_ReadCard.
+    change (build_rec S_zvt_packets_tlv_ReadCard [] _) with [VSome (VInt 208); VSome (VInt 7)].
+    change (build_rec S_zvt_packets_ReadCard _ _) with [VInt t; VSome (VInt 16); VSome (VInt 2); read_card_tlv].
+    cbv beta iota.
+    change {| c_class := 6; c_instr := 192; c_fields := S_zvt_packets_ReadCard |} with (cmd_of "zvt::packets::ReadCard").
+    unfold read_card_value in Henc. rewrite Henc. reflexivity. }
+  rewrite Hreq. split.
+  - intros ->. unfold enc_cmd in Henc. destruct (enc_struct _ _) as [p| | |]; try discriminate; cbn [bind] in Henc;
+    unfold framed_enc in Henc; cbn [len_ser] in Henc; destruct (blen p <? 255); cbn [bind] in Henc; discriminate.
+  - intros r. apply Hdec. vm_compute. lia.
+Qed.
+
+(* read_card while a connection is in use: the first thing it writes is that request, with the configured timeout *)
+Theorem read_card_sends_the_configured_timeout cfg w id : w_cur w = Some id -> c_read_card_timeout cfg < 256 ->
+  exists req, req <> [] /\
+    first_new_event w (snd (read_card cfg w)) (EWrite id (w_now w) req) /\
+    forall r, dec_cmd FUEL (cmd_of "zvt::packets::ReadCard") (req ++ r) = Ok (read_card_value (c_read_card_timeout cfg), r).
+Proof.
+  intros C Ht. destruct (read_card_request_on_the_wire (c_read_card_timeout cfg) Ht) as [Hne Hdec].
+  eexists. split; [exact Hne|]. split; [|exact Hdec].
+  unfold read_card. cbv zeta.
+  match goal with |- context [consume LOOPFUEL cfg (start_retry ?q ?T) w None ?h ?fin] =>
+    pose proof (call_writes_request_first cfg h fin q T id 399 w None C) as K;
+    change (S 399) with LOOPFUEL in K; rewrite q_cmd_seq_of in K; exact K end.
+Qed.
